@@ -94,6 +94,11 @@ func NewChainDataBase(home string) *ChainDatabase {
 				}
 			}
 		}
+		// the all-candidates index is only in memory. It must know every registered candidate again,
+		// or the first full re-rank after the restart sees only the candidates changed since
+		for _, val := range newCandidate {
+			db.LastConfirm.CandidateTrieDB.Set(val)
+		}
 		db.LastConfirm.Top.Rank(max_candidate_count, newCandidate)
 	}
 	return db
